@@ -315,6 +315,13 @@ func (bucket *Bucket) dropCollection(name sgbucket.DataStoreNameImpl) error {
 	if c := bucket.collections[name]; c != nil {
 		c.close()
 		delete(bucket.collections, name)
+	} else {
+		// This handle never opened the collection, but feeds may have been started on it through other
+		// handles: the feed registry is shared by all handles and keyed by the collection's name.
+		for _, feed := range bucket.collectionFeeds[name] {
+			feed.close()
+		}
+		delete(bucket.collectionFeeds, name)
 	}
 	return nil
 }
